@@ -1,5 +1,5 @@
 (** Proofs about Model/Ctags.v (C37). *)
-From ZV Require Import Lib.Base Model.Ctags.
+From ZV Require Import Lib.Base Lib.Utf8 Model.Ctags.
 
 (** ** bytes.Index *)
 Lemma prefixb_spec p l : prefixb p l = true -> firstn (length p) l = p /\ length p <= length l.
@@ -342,15 +342,168 @@ Proof.
   right. apply IH. discriminate.
 Qed.
 
-Lemma add_accepts_ordered len l :
-  ordered l -> Forall wfsec l -> Forall (fun s => s_end s <= len) l -> add_accepts len l = true.
+Lemma add_accepts_ranges_ordered len l :
+  ordered l -> Forall wfsec l -> Forall (fun s => s_end s <= len) l -> add_accepts_ranges len l = true.
 Proof.
-  intros Ho Hw Hb. unfold add_accepts. rewrite sort_secs_sorted_id by now apply ordered_starts_sorted.
+  intros Ho Hw Hb. unfold add_accepts_ranges.
   destruct l as [|x r]; [reflexivity|].
   inversion Ho as [|? ? Hx Ho']; subst. inversion Hw; subst.
   apply andb_true_iff. split.
   - apply chain_ok_ordered; assumption.
   - apply Nat.leb_le. rewrite Forall_forall in Hb. apply Hb. apply last_in. discriminate.
+Qed.
+
+(** ** newSearchableString's rune-boundary test *)
+Lemma In_sec_boundaries x l :
+  In x (sec_boundaries l) <-> exists s, In s l /\ (x = s_start s \/ x = s_end s).
+Proof.
+  unfold sec_boundaries. rewrite in_flat_map. split.
+  - intros (s & Hs & [<- | [<- | []]]); exists s; auto.
+  - intros (s & Hs & [-> | ->]); exists s; (split; [exact Hs|]); cbn; auto.
+Qed.
+
+Lemma sec_boundaries_sorted l : ordered l -> Forall wfsec l -> ForallOrdPairs le (sec_boundaries l).
+Proof.
+  unfold ordered. induction 1 as [|a l Ha Hl IH]; intros Hw; [constructor|].
+  inversion Hw as [|? ? Hwa Hwl]; subst. unfold wfsec in Hwa.
+  change (sec_boundaries (a :: l)) with (s_start a :: s_end a :: sec_boundaries l).
+  assert (Hge : Forall (le (s_end a)) (sec_boundaries l)).
+  { rewrite Forall_forall. intros x Hx. apply In_sec_boundaries in Hx as (s & Hs & Hx).
+    rewrite Forall_forall in Ha, Hwl. specialize (Ha s Hs). specialize (Hwl s Hs). unfold wfsec in Hwl.
+    destruct Hx as [-> | ->]; lia. }
+  constructor; [|constructor; [exact Hge | exact (IH Hwl)]].
+  constructor; [exact Hwa|]. eapply Forall_impl; [|exact Hge]. cbn. intros; lia.
+Qed.
+
+(** one pop at rune start [p]: what is left is still sorted and mentions only later rune starts (or values >= total) *)
+Lemma pop_eq_inv p S' total bs :
+  Forall (fun y => p < y) S' -> p < total ->
+  ForallOrdPairs le bs -> Forall (fun x => x = p \/ In x S' \/ total <= x) bs ->
+  ForallOrdPairs le (pop_eq p bs) /\ Forall (fun x => In x S' \/ total <= x) (pop_eq p bs).
+Proof.
+  intros HS Hp. induction bs as [|x r IH]; intros Hs Hb; cbn [pop_eq]; [split; constructor|].
+  inversion Hs as [|? ? Hx Hr]; subst. inversion Hb as [|? ? Hbx Hbr]; subst.
+  destruct (x =? p) eqn:E; [apply IH; assumption|]. apply Nat.eqb_neq in E.
+  split; [exact Hs|].
+  assert (Hxp : p < x).
+  { destruct Hbx as [-> | [Hin | Hge]]; [congruence | | lia]. rewrite Forall_forall in HS. now apply HS. }
+  constructor.
+  - destruct Hbx as [-> | H]; [congruence | exact H].
+  - rewrite Forall_forall in *. intros y Hy. specialize (Hx y Hy).
+    destruct (Hbr y Hy) as [-> | H]; [lia | exact H].
+Qed.
+
+Lemma nss_fold_ok S total : forall bs,
+  ForallOrdPairs lt S -> Forall (fun p => p < total) S ->
+  ForallOrdPairs le bs -> Forall (fun x => In x S \/ total <= x) bs ->
+  Forall (fun x => total <= x) (fold_left (fun bs pos => pop_eq pos bs) S bs).
+Proof.
+  induction S as [|p S' IH]; intros bs HS Hlt Hs Hb; cbn [fold_left].
+  - eapply Forall_impl; [|exact Hb]. cbn. intros x [[]|H]; exact H.
+  - inversion HS as [|? ? Hp HS']; subst. inversion Hlt as [|? ? Hpt Hlt']; subst.
+    destruct (pop_eq_inv p S' total bs Hp Hpt Hs) as [H1 H2].
+    { eapply Forall_impl; [|exact Hb]. cbn. intros x [[<- | H] | H]; auto. }
+    apply IH; assumption.
+Qed.
+
+Lemma pop_eq_Forall (P : nat -> Prop) p bs : Forall P bs -> Forall P (pop_eq p bs).
+Proof.
+  induction 1 as [|x r Hx Hr IH]; cbn [pop_eq]; [constructor|].
+  destruct (x =? p); [exact IH | now constructor].
+Qed.
+Lemma fold_pop_Forall (P : nat -> Prop) S : forall bs,
+  Forall P bs -> Forall P (fold_left (fun bs pos => pop_eq pos bs) S bs).
+Proof. induction S as [|p S' IH]; intros bs H; cbn [fold_left]; [exact H|]. now apply IH, pop_eq_Forall. Qed.
+Lemma pop_eq_all p l : Forall (fun x => x = p) l -> pop_eq p l = [].
+Proof. induction 1 as [|x r -> _ IH]; cbn [pop_eq]; [reflexivity|]. now rewrite Nat.eqb_refl. Qed.
+Lemma sec_boundaries_length l : length (sec_boundaries l) = 2 * length l.
+Proof. induction l as [|s l IH]; [reflexivity|]. cbn [sec_boundaries flat_map app length] in *. unfold sec_boundaries in IH. lia. Qed.
+
+(** sections that are ordered and whose ends all are rune boundaries of the content pass the test: every boundary
+    is popped (in the loop or at the total length), an even number, so no error and no panic *)
+Lemma nss_verdict_ok content l :
+  ordered l -> Forall wfsec l ->
+  Forall (fun s => RB content (s_start s) /\ RB content (s_end s)) l ->
+  nss_verdict content l = 0%N.
+Proof.
+  intros Ho Hw Hrb. unfold nss_verdict, nss_leftover.
+  assert (HRB : Forall (RB content) (sec_boundaries l)).
+  { rewrite Forall_forall. intros y Hy. apply In_sec_boundaries in Hy as (s & Hs & Hy).
+    rewrite Forall_forall in Hrb. destruct (Hrb s Hs) as [R1 R2]. destruct Hy as [-> | ->]; assumption. }
+  pose proof (nss_fold_ok (rune_starts content) (length content) (sec_boundaries l)) as Hge.
+  pose proof (fold_pop_Forall (fun x => x <= length content) (rune_starts content) (sec_boundaries l)) as Hle.
+  set (rest := fold_left _ _ _) in *.
+  assert (Hge' : Forall (fun x => length content <= x) rest).
+  { apply Hge.
+    - apply rune_starts_sorted.
+    - rewrite Forall_forall. intros p Hp. now apply rune_starts_spec in Hp.
+    - now apply sec_boundaries_sorted.
+    - eapply Forall_impl; [|exact HRB]. cbn. intros y Ry.
+      pose proof (RB_le _ _ Ry). destruct (Nat.eq_dec y (length content)) as [->|Hne]; [right; lia|].
+      left. apply rune_starts_spec. split; [exact Ry | lia]. }
+  assert (Hle' : Forall (fun x => x <= length content) rest).
+  { apply Hle. eapply Forall_impl; [|exact HRB]. cbn. intros y Ry. now apply RB_le. }
+  assert (Heq : Forall (fun x => x = length content) rest).
+  { rewrite Forall_forall in *. intros x Hx. specialize (Hge' x Hx). specialize (Hle' x Hx). lia. }
+  rewrite (pop_eq_all _ _ Heq). cbn [length]. rewrite Nat.sub_0_r, sec_boundaries_length, Nat.even_mul. cbn [Nat.even orb].
+  destruct rest as [|x r]; [reflexivity|]. inversion Hge' as [|? ? Hx _]; subst.
+  apply Nat.ltb_ge in Hx. now rewrite Hx.
+Qed.
+
+(** line starts are rune boundaries: offset 0, or the byte after a '\n' (an ASCII byte is never inside a
+    multi-byte rune) *)
+Lemma line_start_RB content line lo e :
+  line_bounds (newlines_indices content) line = Some (lo, e) -> RB content lo.
+Proof.
+  unfold line_bounds, newlines_indices. destruct (line <=? 0)%Z; [discriminate|].
+  set (idx := Z.to_nat (line - 1)).
+  destruct (nth_error (nls_aux content 0 false) idx) as [x|] eqn:Hx; [|discriminate].
+  intros H; inversion H; subst; clear H.
+  destruct idx as [|k]; [constructor|].
+  destruct (nth_error (nls_aux content 0 false) k) as [y|] eqn:Hy; [|constructor].
+  pose proof (nls_aux_sorted content 0 false k (S k) y e (Nat.lt_succ_diag_r k) Hy Hx) as Hlt.
+  pose proof (nls_aux_bound _ _ _ _ (nth_error_In _ _ Hx)) as Hbe.
+  destruct (nls_aux_char _ _ _ _ (nth_error_In _ _ Hy)) as [[_ Hn] | ->]; [|cbn in *; lia].
+  rewrite Nat.sub_0_r in Hn. replace (S y) with (y + 1) by lia.
+  eapply RB_after_ascii; [exact Hn | reflexivity].
+Qed.
+
+Lemma index_sub_nil l i : index_sub [] l = Some i -> i = 0.
+Proof. destruct l; cbn; intros H; now inversion H. Qed.
+
+Definition rb_row (content : list N) (p : section * entry) : Prop :=
+  RB content (s_start (fst p)) /\ RB content (s_end (fst p)).
+
+Lemma conv_step_rb content acc t :
+  valid_utf8 (e_name t) = true ->
+  Forall (rb_row content) acc -> Forall (rb_row content) (conv_step content (newlines_indices content) acc t).
+Proof.
+  intros Hv Hacc. unfold conv_step.
+  destruct (line_bounds (newlines_indices content) (e_line t)) as [[lo e]|] eqn:Hlb; [|assumption].
+  destruct (index_sub (e_name t) (slice content lo e)) as [io|] eqn:Hix; [|assumption].
+  destruct (overlaps (map fst acc) (lo + io) (lo + io + length (e_name t))) as [i|] eqn:Hov; [|assumption].
+  apply Forall_insert; [|exact Hacc]. unfold rb_row. cbn [fst s_start s_end].
+  pose proof (line_bounds_spec _ _ _ _ Hlb) as [Hlo He].
+  pose proof (line_start_RB _ _ _ _ Hlb) as Hrlo.
+  destruct (e_name t) as [|b nm] eqn:En.
+  - apply index_sub_nil in Hix. subst io. cbn [length]. rewrite !Nat.add_0_r. split; exact Hrlo.
+  - rewrite <- En in *. apply index_sub_spec in Hix as [Hname Hlen].
+    assert (Hsl : length (slice content lo e) = e - lo).
+    { unfold slice. rewrite firstn_length, skipn_length. lia. }
+    rewrite Hsl in Hlen.
+    rewrite slice_slice in Hname by lia. unfold slice in Hname.
+    replace (lo + io + length (e_name t) - (lo + io)) with (length (e_name t)) in Hname by lia.
+    apply utf8_self_sync; [exact Hv | rewrite En; discriminate | exact Hname].
+Qed.
+
+Lemma convert_rb content tags :
+  Forall (fun t => valid_utf8 (e_name t) = true) tags -> Forall (rb_row content) (convert content tags).
+Proof.
+  unfold convert. intros Hv.
+  assert (H0 : Forall (rb_row content) []) by constructor.
+  revert H0. generalize (@nil (section * entry)).
+  induction Hv as [|t tags Ht Hts IH]; intros acc Hacc; cbn [fold_left]; [exact Hacc|].
+  apply IH. now apply conv_step_rb.
 Qed.
 
 (** ** Main results *)
@@ -360,10 +513,32 @@ Proof. apply convert_inv. Qed.
 Lemma convert_rows content tags : Forall (row_ok content) (convert content tags).
 Proof. apply convert_inv. Qed.
 
-Lemma convert_accepted content tags :
-  add_accepts (length content) (map fst (convert content tags)) = true.
+Lemma convert_wf content tags : Forall wfsec (map fst (convert content tags)).
 Proof.
-  pose proof (convert_inv content tags) as [Ho Hr].
-  apply add_accepts_ordered; [exact Ho| |]; rewrite Forall_forall in *; intros s Hs;
-    apply in_map_iff in Hs as (p & <- & Hp); apply (Hr p Hp).
+  pose proof (convert_inv content tags) as [_ Hr]. rewrite Forall_forall in *. intros s Hs.
+  apply in_map_iff in Hs as (p & <- & Hp). apply (Hr p Hp).
+Qed.
+
+Lemma convert_sorted_id content tags :
+  sort_secs (map fst (convert content tags)) = map fst (convert content tags).
+Proof. apply sort_secs_sorted_id, ordered_starts_sorted; [apply convert_ordered | apply convert_wf]. Qed.
+
+(** sort + overlap + past-the-end tests: for ALL names (valid UTF-8 or not) *)
+Lemma convert_ranges_accepted content tags :
+  add_accepts_ranges (length content) (sort_secs (map fst (convert content tags))) = true.
+Proof.
+  rewrite convert_sorted_id. pose proof (convert_inv content tags) as [Ho Hr].
+  apply add_accepts_ranges_ordered; [exact Ho | apply convert_wf |].
+  rewrite Forall_forall in *; intros s Hs. apply in_map_iff in Hs as (p & <- & Hp). apply (Hr p Hp).
+Qed.
+
+(** the full verdict, for names that are valid UTF-8 *)
+Lemma convert_accepted content tags :
+  Forall (fun t => valid_utf8 (e_name t) = true) tags ->
+  add_accepts content (map fst (convert content tags)) = true.
+Proof.
+  intros Hv. unfold add_accepts, add_verdict. rewrite convert_ranges_accepted. apply N.eqb_eq.
+  rewrite convert_sorted_id. apply nss_verdict_ok; [apply convert_ordered | apply convert_wf |].
+  pose proof (convert_rb content tags Hv) as Hrb. rewrite Forall_forall in *. intros s Hs.
+  apply in_map_iff in Hs as (p & <- & Hp). apply (Hrb p Hp).
 Qed.
